@@ -203,6 +203,14 @@ func vfC25Labels(v *vfT, c vfC25Case) {
 	if c.Found == "" {
 		v.Label("foundation=computed")
 	}
+	if c.Found == " " {
+		// pion/ice's representation of an EMPTY foundation ("seen in the wild"): it marshals to
+		// nothing, so the signalled form is "candidate: 1 udp ..." with a leading space
+		v.Label("foundation=empty(leading-space-in-signalled-form)")
+	}
+	if len(c.Found) == 32 {
+		v.Label("foundation=32-chars")
+	}
 	v.Label(fmt.Sprintf("exts=%d", len(c.Exts)))
 	for i, e := range c.Exts {
 		if e.V == "" {
@@ -259,7 +267,7 @@ func vfC25Gen(v *vfT) vfC25Case {
 	c.Port = rapid.OneOf(rapid.SampledFrom([]int{0, 1, 9, 65535, 3478}), rapid.IntRange(0, 65535)).Draw(t, "port")
 	c.Comp = rapid.OneOf(rapid.SampledFrom([]uint16{1, 2, 1, 0, 256, 65535}), rapid.Uint16()).Draw(t, "comp")
 	c.Prio = rapid.OneOf(rapid.SampledFrom([]uint32{0, 1, 4294967295, 2130706431, 1<<31 - 1}), rapid.Uint32()).Draw(t, "prio")
-	c.Found = rapid.OneOf(rapid.SampledFrom([]string{"", "1", "4077567720", "abcDEF+/09"}), rapid.StringMatching(`[A-Za-z0-9+/]{1,32}`)).Draw(t, "found")
+	c.Found = rapid.OneOf(rapid.SampledFrom([]string{"", "1", "4077567720", "abcDEF+/09", " ", " ", "z", "abcdefghijklmnopqrstuvwxyzABCDEF"}), rapid.StringMatching(`[A-Za-z0-9+/]{1,32}`)).Draw(t, "found")
 	if c.Typ != "host" && rapid.Bool().Draw(t, "rel") {
 		if rapid.Bool().Draw(t, "rel6") {
 			c.RelAddr = rapid.SampledFrom(vfC25V6).Draw(t, "relv6")
@@ -295,7 +303,7 @@ func TestVerif_C25_RoundTrip(t *testing.T) {
 	vfProperty(t, "C25", vfOpts{
 		Rule: "one candidate built with pion/ice's constructors (4 types x udp/tcp x IPv4/IPv6/mDNS, boundary ports/priorities/components, ice-char foundations or computed, related address present/absent, tcptype, 0..4 extensions with empty values in inner and last position) -> newICECandidateFromICE -> ToJSON -> ice.UnmarshalCandidate; non-trivial = the candidate has at least one extension or a TCP type",
 		Assumptions: []string{"pion/ice (constructors, Marshal, UnmarshalCandidate) is the trusted dependency",
-			"foundations are 1..32 ice-chars or computed; extension keys/values are byte-strings without SP, NUL, CR, LF and without runes above U+00FF (pion/ice's own parser rejects those); a related address is either absent or has a port >= 1 (pion/ice's Marshal omits it otherwise); extension keys are unique after AddExtension's replace-on-duplicate"},
+			"foundations are 1..32 ice-chars, computed, or empty (pion/ice keeps an empty foundation as \" \" and signals it as nothing); extension keys/values are byte-strings without SP, NUL, CR, LF and without runes above U+00FF (pion/ice's own parser rejects those); a related address is either absent or has a port >= 1 (pion/ice's Marshal omits it otherwise); extension keys are unique after AddExtension's replace-on-duplicate"},
 	}, vfC25Gen, vfC25RunRoundTrip)
 }
 
